@@ -9,8 +9,26 @@ HERE = os.path.dirname(os.path.dirname(os.path.abspath(__file__)))
 # pid -> (technique, level text, level note, design ref)
 CLAIMED = {
 	"C04": ("runtime monitor: executed promotion automaton + exhaustive small-scope inference vs lattice model, functional-promotion hook",
-		"Held on every execution explored: all sequences up to length 4 (thorough 5) over a 16-letter type alphabet and the whole reachable promotion automaton are executed against a lattice model; longer multisets and result typing are sampled. Exhaustive for the enumerated scope, sampled beyond it.",
+		"Held on every execution explored: all sequences up to length 4 (thorough 5) over a 16-letter type alphabet and the whole reachable promotion automaton are executed against a lattice model; longer multisets and result typing (whole operator x form x kind product, joins, aggregates, CSV) are sampled. Exhaustive for the enumerated scope, sampled beyond it.",
 		"Trusts the lattice model written from the statement; assumes promotion depends on a value only through its type (monitored by a hook on promote_with).", "DESIGN.md §4 C04"),
+	"C05": ("runtime monitor: Python-operator reference oracle over the operator x operand-form x dtype-pair product, broadcast-method enumeration",
+		"Held on every constrained execution explored: the complete product of 7 binary + 3 unary operators x 5 operand forms x 20 kind pairs x lengths {0,1,2,5} x None patterns, explicit length mismatches, table arithmetic, every broadcastable str/int/float/bool/date/datetime method and property at sizes 1/3/40. Values are sampled; the operator/form/kind structure is complete.",
+		"The oracle is CPython's own operator applied per element; cases where Python raises are unconstrained.", "DESIGN.md §4 C05"),
+	"C06": ("runtime monitor: exhaustive None-position subsets (len<=5) x dtypes against Python reference reductions/comparisons, metamorphic None-free relation",
+		"Held on every constrained execution explored: all 62 None masks of lengths 1-5 x 8 dtypes through arithmetic, comparisons, reductions, per-group aggregates and isna/dropna/fillna (vectors built directly and with None introduced by writes/concatenation).",
+		"Python semantics on the None-free operands are the oracle; float reductions compared with isclose.", "DESIGN.md §4 C06"),
+	"C07": ("runtime monitor: exhaustive slice/index/mask enumeration on lengths 0-5 against list semantics; table selection commutation; rename histories",
+		"Held on every execution explored: all 2304 slices x 6 lengths, all indices -7..7, all masks of length n and n+-1 (n<=5), comparison results over dtype pairs and hash-colliding near-equal vectors, table row selection / commutation / missing-name (also after renames) on sampled tables.",
+		"Python list semantics are the oracle.", "DESIGN.md §4 C07"),
+	"C09": ("runtime monitor: nested-loop join model on id-tagged rows, exhaustive small key space, join/edit/join histories, PYTHONHASHSEED replicas with per-case result digests",
+		"Held on every execution explored: all key columns over {None,1,2} with 0-3 rows per side by name and by vector, sampled 1-3 key columns with duplicates/None/hash-colliding ints, multi-step histories on the same table objects, three (thorough four) hash seeds compared case by case.",
+		"Nested-loop model over the tables' current contents; refusal allowed only for differing/float/undetermined key kinds.", "DESIGN.md §4 C09"),
+	"C10": ("runtime monitor: nested-loop outer-join model + conservation/containment/symmetry relations on id-tagged rows, join/edit/join histories",
+		"Held on every execution explored: the C09 key space for left and full joins (every subset of unmatched rows for <=3 rows per side), sampled tables, histories, and the relations inner<=left<=full, id conservation and full-join symmetry.",
+		"Same as C09.", "DESIGN.md §4 C10"),
+	"C11": ("runtime monitor: executed 48-cell decision table with duplicate-placement variants, join/edit/join histories",
+		"Held on every execution explored: every cell of kind x expect x left-unique x right-unique realised by 7 duplicate placements x 2 key kinds, empty sides, invalid expect values, sampled tables and histories in which a key edit creates or removes a duplicate between two calls.",
+		"Uniqueness computed by the model on whole key tuples (None equals None).", "DESIGN.md §4 C11"),
 }
 
 PENDING_REASON = "check not yet registered in this commit (under construction; runtime monitoring does apply - see DESIGN.md §4)"
